@@ -211,7 +211,17 @@ where
                     let r = catch_unwind(AssertUnwindSafe(|| f(i, &mut rep)));
                     if r.is_err() {
                         let m = LAST_PANIC.with(|l| l.borrow_mut().take()).unwrap_or_default();
-                        rep.inconclusive(format!("harness panic in case {}: {}", i, m));
+                        if m.contains("@ /repo/") {
+                            // the panic comes out of the library itself while the harness was merely constructing values through
+                            // public, infallible constructors (every call that may legitimately panic runs under `guard`)
+                            rep.violation(
+                                "LIB/panic-outside-monitored-call",
+                                format!("the library panicked while the harness was preparing case {} through public constructors: {}", i, m),
+                                serde_json::json!({"case": i}),
+                            );
+                        } else {
+                            rep.inconclusive(format!("harness panic in case {}: {}", i, m));
+                        }
                     }
                     rep.count("cases_run", 1);
                 }
